@@ -15,8 +15,11 @@
 (*    are dropped (a retained copy lands in the output data file, unindexed), the hint    *)
 (*    file of the output being written is removed, the output is made known to the        *)
 (*    statistics if it exists, and the active file moves above every id the merge used;   *)
-(*  - statistics of a merged file are forgotten only after both unlinks succeeded.        *)
-(* Named deviations switch each of these repairs off again (the defects D6c-D6g).        *)
+(*  - statistics of a merged file are forgotten only after both unlinks succeeded;        *)
+(*  - the wrapper remembers the output it left behind (entries may already point into it   *)
+(*    although it was never fsynced); the next merge fsyncs it before anything else, so    *)
+(*    that it never removes the only durable copy of a value (FaultPowerLossSafe).         *)
+(* Named deviations switch each of these repairs off again (the defects D6c-D6h).        *)
 (*                                                                                     *)
 (* Ghost `allowed` : per key the set of values a reader may see - a singleton unless a   *)
 (* failed set/delete left the key indeterminate ("may or may not have taken effect").    *)
@@ -25,7 +28,7 @@ EXTENDS Bitcask
 
 CONSTANTS MaxFaults,
           FDev       \* subset of {"NoStatsBeforeWrite", "StatsDroppedBeforeUnlink", "MergeFailKeepsActive",
-                     \*            "MergeFailKeepsHint", "MergeFailOutputUnknown"}
+                     \*            "MergeFailKeepsHint", "MergeFailOutputUnknown", "LeftoverForgotten"}
 
 VARIABLES nfault, allowed
 fvars == <<vars, nfault, allowed>>
@@ -126,8 +129,10 @@ FMergeUnlinkHint ==
     /\ hint' = IF "MergeFailKeepsHint" \in FDev THEN hint ELSE Drop(hint, wr.out)
     /\ hsync' = IF "MergeFailKeepsHint" \in FDev THEN hsync ELSE Drop(hsync, wr.out)
     /\ stats' = IF wr.out \in DOMAIN data /\ "MergeFailOutputUnknown" \notin FDev THEN Ensure(stats, wr.out) ELSE stats
+    \* the output that was being written is remembered: it was not necessarily forced to disk
+    /\ mghost' = IF wr.out \in DOMAIN data /\ "LeftoverForgotten" \notin FDev THEN [mghost EXCEPT !.leftover = wr.out] ELSE mghost
     /\ wr' = [wr EXCEPT !.pc = "fm.newactive"]
-    /\ UNCHANGED <<cfg, data, dsync, keydir, active, written, model, everIds, nops, ncrash, mghost, nfault, allowed>>
+    /\ UNCHANGED <<cfg, data, dsync, keydir, active, written, model, everIds, nops, ncrash, nfault, allowed>>
 FMergeNewActive ==
     /\ wr.pc = "fm.newactive"
     /\ IF "MergeFailKeepsActive" \in FDev
@@ -139,6 +144,24 @@ FMergeNewActive ==
 FailMergeNewActive ==
     /\ CanFail /\ Faulted /\ wr.pc = "m.unlink" /\ wr.unl = {}
     /\ wr' = [pc |-> "fm.unlinkhint", out |-> wr.out]
+    /\ UNCHANGED <<vars_but_wr, allowed>>
+
+\* Writer::merge_files starts by forcing the leftover of a failed merge to disk
+FStartMerge ==
+    /\ wr = Idle
+    /\ IF mghost.leftover = -1 THEN StartMerge
+       ELSE /\ nops' = nops + 1 /\ wr' = [pc |-> "m.sync_leftover"]
+            /\ UNCHANGED <<cfg, data, hint, dsync, hsync, keydir, stats, active, written, model, everIds, ncrash, mghost>>
+FSyncLeftover ==
+    /\ wr.pc = "m.sync_leftover"
+    /\ LET f == mghost.leftover IN dsync' = IF f \in DOMAIN data THEN [dsync EXCEPT ![f] = Len(data[f].ents)] ELSE dsync
+    /\ mghost' = [mghost EXCEPT !.leftover = -1]
+    /\ wr' = MergeStartRec
+    /\ UNCHANGED <<cfg, data, hint, hsync, keydir, stats, active, written, model, everIds, nops, ncrash>>
+\* that fsync fails: merge_files returns before it created anything; the wrapper still moves the active file
+FailSyncLeftover ==
+    /\ CanFail /\ Faulted /\ wr.pc = "m.sync_leftover"
+    /\ wr' = [pc |-> "fm.unlinkhint", out |-> active + 1]
     /\ UNCHANGED <<vars_but_wr, allowed>>
 
 \* open: the create fails, open returns the error, nothing changed
@@ -156,7 +179,7 @@ FPublish ==
 FNext ==
     \/ ("put" \in Ops /\ \E k \in Keys, v \in Vals : FStartWrite(k, v))
     \/ ("del" \in Ops /\ \E k \in Keys : FStartWrite(k, Tomb))
-    \/ ("merge" \in Ops /\ StartMerge /\ Quiet)
+    \/ ("merge" \in Ops /\ FStartMerge /\ Quiet) \/ (FSyncLeftover /\ Quiet) \/ FailSyncLeftover
     \/ ("reopen" \in Ops /\ Reopen /\ Quiet)
     \/ ((AppendStep \/ SyncStep \/ AccountStep \/ RollStep \/ MergeStep) /\ Quiet)
     \/ FPublish
@@ -169,6 +192,19 @@ FSpec == FInit /\ [][FNext]_fvars
 \* in the running process and after a restart every key reads one of its allowed values
 FaultContainedLive == \A k \in Keys : ReadKey(keydir, data, k) \in allowed[k]
 FaultContainedRestart == IdleState => \A k \in Keys : RecoveredMap(data, hint)[k] \in allowed[k]
+\* C09 after a failure: under sync=always, whatever a power loss leaves (every file cut anywhere at or after
+\* its last fsync), every key recovers to one of its allowed values - in particular a merge that follows a
+\* failed one never removes the only durable copy of a value.  (A restart between the failed merge and the
+\* next one loses the writer's memory of the leftover: checked on instances without reopen.)
+FInflight == wr.pc \in {"append", "sync", "account", "roll", "publish", "f.newactive", "f.dropflush", "f.ret"}
+AllowedNow(k) == allowed[k] \cup (IF FInflight /\ wr.k = k THEN {IF wr.v = Tomb THEN None ELSE wr.v} ELSE {})
+FaultPowerLossSafe ==
+    cfg.sync = "always" =>
+        \A cd \in DataCuts, ch \in HintCuts :
+            LET m == RecoveredMap([f \in DOMAIN data |-> CutFile(data[f], cd[f])],
+                                  [f \in DOMAIN hint |-> CutFile(hint[f], ch[f])])
+            IN \A k \in Keys : m[k] \in AllowedNow(k)
+
 \* the store stays usable: whatever step comes next is not blocked by what the failure left behind
 StaysUsable ==
     /\ (wr.pc \in {"roll", "f.newactive"} => active + 1 \notin DOMAIN data)
